@@ -621,9 +621,6 @@ def check_cached_matrices_not_mutated(ctx: Check, tree: Tree) -> None:
                       "the cached matrix is shared by all later calls with the same n_channels: the second formulate() starts from the already modified matrix")
     if not bad:
         ctx.ok("R-CACHE", MOD.replace(".", "/"), f"the {len(sources)} memoised matrix builders' results are only read / substituted (xreplace), never written")
-    from .c09 import second_call_agrees
-
-    second_call_agrees(ctx, tree, ("NonRelativisticPVector", "RelativisticPVector"))
 
 
 def check_no_rebuild(ctx: Check, tree: Tree) -> None:
